@@ -140,11 +140,11 @@ def markup_decl : G :=
 def sd_decl : G :=
   G.seq [G.seq [G.cls1 P.isSpace, G.tag [Char.ofNat 115,Char.ofNat 116,Char.ofNat 97,Char.ofNat 110,Char.ofNat 100,Char.ofNat 97,Char.ofNat 108,Char.ofNat 111,Char.ofNat 110,Char.ofNat 101], G.nt N.eq], G.alt [G.seq [G.tag [Char.ofNat 39], G.tag [Char.ofNat 121,Char.ofNat 101,Char.ofNat 115], G.tag [Char.ofNat 39]], G.seq [G.tag [Char.ofNat 34], G.tag [Char.ofNat 121,Char.ofNat 101,Char.ofNat 115], G.tag [Char.ofNat 34]], G.seq [G.tag [Char.ofNat 39], G.tag [Char.ofNat 110,Char.ofNat 111], G.tag [Char.ofNat 39]], G.seq [G.tag [Char.ofNat 34], G.tag [Char.ofNat 110,Char.ofNat 111], G.tag [Char.ofNat 34]]]]
 def element : G :=
-  G.alt [G.nt N.empty_entity_tag, G.seq [G.nt N.stag, G.nt N.content, G.nt N.etag]]
+  G.alt [G.nt N.empty_entity_tag, G.verify (G.seq [G.nt N.stag, G.nt N.content, G.nt N.etag]) P.tagNamesMatch]
 def stag : G :=
   G.seq [G.tag [Char.ofNat 60], G.seq [G.nt N.qname, G.many0 (G.seq [G.cls1 P.isSpace, G.nt N.attribute_])], G.seq [G.cls0 P.isSpace, G.tag [Char.ofNat 62]]]
 def attribute_ : G :=
-  G.seq [G.alt [G.nt N.ns_att_name, G.nt N.qname], G.seq [G.nt N.eq, G.nt N.att_value]]
+  G.alt [G.seq [G.nt N.ns_att_name, G.seq [G.nt N.eq, G.nt N.att_value]], G.seq [G.nt N.qname, G.seq [G.nt N.eq, G.nt N.att_value]]]
 def etag : G :=
   G.seq [G.tag [Char.ofNat 60,Char.ofNat 47], G.nt N.qname, G.seq [G.cls0 P.isSpace, G.tag [Char.ofNat 62]]]
 def content : G :=
@@ -351,6 +351,6 @@ theorem env_ns_att_name : env N.ns_att_name = Prod.ns_att_name := rfl
 
 /-- semantic actions (closures of `map`) seen by the translator: (production, sha1 of the text).
     The model's `abs` functions are hand-written counterparts; the differential tie covers them. -/
-def actionFingerprints : List (String × String) := [("qname", "255d22b30239"), ("qname", "255d22b30239"), ("prefixed_name", "1b78533b5138"), ("document", "84460134d61e"), ("entity_value", "9b6e3d476697"), ("entity_value", "c43950530afe"), ("entity_value", "7c06e316074f"), ("entity_value", "9b6e3d476697"), ("entity_value", "c43950530afe"), ("entity_value", "7c06e316074f"), ("att_value", "6f93d1d1c682"), ("att_value", "6f93d1d1c682"), ("att_value", "6f93d1d1c682"), ("att_value", "6f93d1d1c682"), ("comment", "efed5b57a32d"), ("pi", "3db44056236f"), ("cdsect", "4e57dfb88628"), ("prolog", "9c2f5d02acff"), ("xml_decl", "a5ccd258860a"), ("misc", "16d07615705c"), ("misc", "16d07615705c"), ("misc", "16d07615705c"), ("doctype_decl", "cf4ebfbd648a"), ("decl_sep", "7219529fb20a"), ("decl_sep", "576148231fb6"), ("int_subset", "7219529fb20a"), ("markup_decl", "c4b9b8f701a7"), ("markup_decl", "5fb0f09f8d5c"), ("markup_decl", "e7deee2cc167"), ("markup_decl", "e7deee2cc167"), ("markup_decl", "e7deee2cc167"), ("markup_decl", "e7deee2cc167"), ("sd_decl", "f5c3e13f0d9b"), ("element", "55ef48a6e423"), ("stag", "49969d7f9c42"), ("attribute", "60a361a148e3"), ("attribute", "34b44e70bf7a"), ("etag", "35ea82d9a242"), ("content", "724022a66c14"), ("content", "7c664111a1b6"), ("content", "7c664111a1b6"), ("content", "7c664111a1b6"), ("content", "7c664111a1b6"), ("content", "7c664111a1b6"), ("empty_entity_tag", "49969d7f9c42"), ("element_decl", "05c2259f0b6d"), ("content_spec", "74a878543995"), ("content_spec", "7d5a68f559b2"), ("content_spec", "06449b27557c"), ("content_spec", "4cbaff72ef3c"), ("children", "47c759b8c7eb"), ("children", "c06e17d59a5c"), ("cp", "47c759b8c7eb"), ("cp", "c06e17d59a5c"), ("cp", "fed998edeb2c"), ("choice", "a20747d89d6e"), ("seq", "a20747d89d6e"), ("mixed", "00b2aad45d07"), ("mixed", "c31eb39b2cc6"), ("attlist_decl", "e89ca67d4b1d"), ("att_def", "d2be2e8645c3"), ("att_def", "5f893f03fa91"), ("att_def", "d0d84792d7ec"), ("att_type", "5f9d9bdef57f"), ("att_type", "7ab2d3f1bd91"), ("att_type", "4657757c5ee5"), ("att_type", "d3075210a205"), ("att_type", "29d201f272c6"), ("att_type", "efc5ce234fa7"), ("att_type", "5a1fa8748789"), ("att_type", "df25cff1042c"), ("enumerated_type", "070769f9b122"), ("enumerated_type", "3ec64a285407"), ("notation_type", "a20747d89d6e"), ("enumeration", "a20747d89d6e"), ("default_decl", "d1aee26c7117"), ("default_decl", "2e1e0d887d0b"), ("default_decl", "9a1862108875"), ("char_ref", "76f168b85690"), ("char_ref", "91b3947c47be"), ("entity_ref", "c8348a104590"), ("entity_decl", "89b44a5c6ec8"), ("entity_decl", "89b44a5c6ec8"), ("ge_decl", "669d45e4f868"), ("pe_decl", "3253fb3764c4"), ("entity_def", "c45cfa7c406f"), ("entity_def", "c45cfa7c406f"), ("pe_def", "58efc2ca01f0"), ("pe_def", "58efc2ca01f0"), ("external_id", "67f9fb473b7c"), ("external_id", "67f9fb473b7c"), ("notation_decl", "143b61bd5b5a"), ("notation_decl", "cedb5c32d67c"), ("notation_decl", "cedb5c32d67c"), ("ns_att_name", "34b44e70bf7a"), ("ns_att_name", "4ada3f8d3293")]
+def actionFingerprints : List (String × String) := [("qname", "255d22b30239"), ("qname", "255d22b30239"), ("prefixed_name", "1b78533b5138"), ("document", "84460134d61e"), ("entity_value", "9b6e3d476697"), ("entity_value", "c43950530afe"), ("entity_value", "7c06e316074f"), ("entity_value", "9b6e3d476697"), ("entity_value", "c43950530afe"), ("entity_value", "7c06e316074f"), ("att_value", "6f93d1d1c682"), ("att_value", "6f93d1d1c682"), ("att_value", "6f93d1d1c682"), ("att_value", "6f93d1d1c682"), ("comment", "efed5b57a32d"), ("pi", "3db44056236f"), ("cdsect", "4e57dfb88628"), ("prolog", "9c2f5d02acff"), ("xml_decl", "a5ccd258860a"), ("misc", "16d07615705c"), ("misc", "16d07615705c"), ("misc", "16d07615705c"), ("doctype_decl", "cf4ebfbd648a"), ("decl_sep", "7219529fb20a"), ("decl_sep", "576148231fb6"), ("int_subset", "7219529fb20a"), ("markup_decl", "c4b9b8f701a7"), ("markup_decl", "5fb0f09f8d5c"), ("markup_decl", "e7deee2cc167"), ("markup_decl", "e7deee2cc167"), ("markup_decl", "e7deee2cc167"), ("markup_decl", "e7deee2cc167"), ("sd_decl", "f5c3e13f0d9b"), ("element", "55ef48a6e423"), ("stag", "49969d7f9c42"), ("attribute", "60a361a148e3"), ("attribute", "34b44e70bf7a"), ("content", "724022a66c14"), ("content", "7c664111a1b6"), ("content", "7c664111a1b6"), ("content", "7c664111a1b6"), ("content", "7c664111a1b6"), ("content", "7c664111a1b6"), ("empty_entity_tag", "49969d7f9c42"), ("element_decl", "05c2259f0b6d"), ("content_spec", "74a878543995"), ("content_spec", "7d5a68f559b2"), ("content_spec", "06449b27557c"), ("content_spec", "4cbaff72ef3c"), ("children", "47c759b8c7eb"), ("children", "c06e17d59a5c"), ("cp", "47c759b8c7eb"), ("cp", "c06e17d59a5c"), ("cp", "fed998edeb2c"), ("choice", "a20747d89d6e"), ("seq", "a20747d89d6e"), ("mixed", "00b2aad45d07"), ("mixed", "c31eb39b2cc6"), ("attlist_decl", "e89ca67d4b1d"), ("att_def", "d2be2e8645c3"), ("att_def", "5f893f03fa91"), ("att_def", "d0d84792d7ec"), ("att_type", "5f9d9bdef57f"), ("att_type", "7ab2d3f1bd91"), ("att_type", "4657757c5ee5"), ("att_type", "d3075210a205"), ("att_type", "29d201f272c6"), ("att_type", "efc5ce234fa7"), ("att_type", "5a1fa8748789"), ("att_type", "df25cff1042c"), ("enumerated_type", "070769f9b122"), ("enumerated_type", "3ec64a285407"), ("notation_type", "a20747d89d6e"), ("enumeration", "a20747d89d6e"), ("default_decl", "d1aee26c7117"), ("default_decl", "2e1e0d887d0b"), ("default_decl", "9a1862108875"), ("char_ref", "76f168b85690"), ("char_ref", "91b3947c47be"), ("entity_ref", "c8348a104590"), ("entity_decl", "89b44a5c6ec8"), ("entity_decl", "89b44a5c6ec8"), ("ge_decl", "669d45e4f868"), ("pe_decl", "3253fb3764c4"), ("entity_def", "c45cfa7c406f"), ("entity_def", "c45cfa7c406f"), ("pe_def", "58efc2ca01f0"), ("pe_def", "58efc2ca01f0"), ("external_id", "67f9fb473b7c"), ("external_id", "67f9fb473b7c"), ("notation_decl", "143b61bd5b5a"), ("notation_decl", "cedb5c32d67c"), ("notation_decl", "cedb5c32d67c"), ("ns_att_name", "34b44e70bf7a"), ("ns_att_name", "4ada3f8d3293")]
 
 end XmlRs.Gen.Xml
